@@ -1,5 +1,7 @@
 package main
 
+import "math/big"
+
 // genC10: random histories over the whole API with heavy aliasing.  Every event logs the whole pool,
 // so "operands that are not the receiver never change" and "copies are independent" are checked by
 // the validator at every step.
@@ -35,7 +37,43 @@ func genC10(m *M, histories, length int) {
 			if m.rng.Intn(3) == 0 {
 				sa = sr
 			}
-			switch m.rng.Intn(52) {
+			switch m.rng.Intn(54) {
+			case 52:
+				// a second variable RELATED to an existing one as affine points: the same point, its negative, or one of its two
+				// siblings with the same y (beta x, y) -- decoded, so Z = 1 -- and at once combined with it
+				if enc := m.E[a].EncodeUncompressed(); len(enc) == 65 {
+					x, y := new(big.Int).SetBytes(enc[1:33]), new(big.Int).SetBytes(enc[33:])
+					switch m.rng.Intn(4) {
+					case 0:
+						x = mulmod(x, beta, bigP)
+					case 1:
+						x = mulmod(mulmod(x, beta, bigP), beta, bigP)
+					case 2:
+						y = new(big.Int).Sub(bigP, y)
+					}
+					r2 := (a + 1 + m.rng.Intn(ne-1)) % ne
+					m.class("history:related_affine_pair")
+					m.EDecodeCoords(r2, be32(x), be32(y))
+					if m.rng.Intn(2) == 0 {
+						m.EDecodeForm(a, "any", enc) // the first one affine too
+					}
+					switch m.rng.Intn(3) {
+					case 0:
+						m.EAdd(r2, a)
+					case 1:
+						m.EAdd(a, r2)
+					default:
+						m.ESub(r2, a)
+					}
+					m.EEqual(r2, a)
+				}
+			case 53:
+				// a full-width multiplication by a scalar that is special only in its STORED form, or a constant of the curve
+				if fullMuls < 2 {
+					fullMuls++
+					m.putScalar(sa, []string{"mont_window", "mont_near_const", "curve_constant", "word_structure"}[m.rng.Intn(4)])
+					m.EMul(r, sa)
+				}
 			case 40:
 				if pows < 1 { // the validator's square-and-multiply is 256 steps whatever the exponent
 					pows++
